@@ -80,6 +80,14 @@ func (rn *runner) monitor(s *gi.Session, st *gi.Step) {
 	stAfter := s.W.StoreMap()
 	switch st.Class {
 	case "ok":
+		for _, l := range op.Ranges {
+			for _, rg := range l {
+				p1, p2 := gi.PoolOfIP(st.PoolsB, rg[0]), gi.PoolOfIP(st.PoolsB, rg[1])
+				if p1 != nil && p2 != nil && (p1.Ranges[0] != p2.Ranges[0]) {
+					rn.R.Hit("request-range-spans-pools")
+				}
+			}
+		}
 		if len(st.IPs) != k {
 			bad("multi-alloc-wrong-count", fmt.Sprintf("%d addresses for %d range lists", len(st.IPs), k))
 			return
@@ -251,6 +259,56 @@ func (rn *runner) oneCase() {
 	if e.Rng.Intn(6) == 0 {
 		req.Key = "k1" // may already own addresses inside the ranges
 	}
+	rn.finish(base, ops, req)
+}
+
+// spanCase: pools sharing one pod subnet and gateway (any configuration order, higher range first included, adjacent and
+// interleaved ranges), a request of 1..3 ranges each spanning several pools partially, and the requested addresses of one
+// pool — or a random subset — already in use: the first free configured address in ascending order must be found INSIDE
+// the requested range, whatever the pool order.
+func (rn *runner) spanCase() {
+	e := rn.E
+	base := gi.NewSession()
+	ops := []gi.Op{{Kind: "conf", Conf: gi.GenSharedConf(e.Rng), Plan: gi.NoPlan()}}
+	base.Do(ops[0])
+	v := base.W.View()
+	k := 1 + e.Rng.Intn(3)
+	req := gi.Op{Kind: "arng", Key: "dp_ns1_req_req-0", Subnet: firstSubnet(v), Node: "n1", UID: "u7", Policy: e.Rng.Intn(3),
+		Ranges: v.GenSpanRanges(e.Rng, k), Plan: gi.NoPlan()}
+	// exhaust: all requested addresses of one pool, or each requested address with probability 1/2
+	var victim *gi.PoolInfo
+	if len(v.Pools) > 0 && e.Rng.Intn(3) != 0 {
+		victim = &v.Pools[e.Rng.Intn(len(v.Pools))]
+	}
+	n := 0
+	for _, l := range req.Ranges {
+		for _, rg := range l {
+			for x := uint64(rg[0]); x <= uint64(rg[1]); x++ {
+				ip := uint32(x)
+				p := gi.PoolOfIP(v.Pools, ip)
+				if p == nil {
+					continue
+				}
+				take := e.Rng.Intn(2) == 0
+				if victim != nil {
+					take = p.Gateway == victim.Gateway && len(p.Ranges) == len(victim.Ranges) && p.Ranges[0] == victim.Ranges[0]
+				}
+				if take {
+					op := gi.Op{Kind: "aspec", Key: fmt.Sprintf("other-%d", n), IP: ip, Node: "n9", Plan: gi.NoPlan()}
+					n++
+					ops = append(ops, op)
+					st := base.Do(op)
+					rn.Note(&st)
+				}
+			}
+		}
+	}
+	rn.R.Hit("span-case")
+	rn.finish(base, ops, req)
+}
+
+// finish runs the request fault free, then from the same prefix with a fault at every call index.
+func (rn *runner) finish(base *gi.Session, ops []gi.Op, req gi.Op) {
 	ops = append(ops, req)
 	st := base.Do(req)
 	rn.Note(&st)
@@ -330,7 +388,11 @@ func run(e *hx.Env) *hx.Report {
 	}
 	n := e.N(1500, 20000)
 	for i := 0; i < n; i++ {
-		rn.oneCase()
+		if i%4 == 3 {
+			rn.spanCase()
+		} else {
+			rn.oneCase()
+		}
 	}
 	rn.Flush()
 	return rn.R
